@@ -226,7 +226,8 @@ _FOREIGN = []
 def foreign_history():
     """Before the first converter that a check analyses is created, a caller-supplied converter with a different
     configuration (extra keys forbidden, detailed validation off) gets the package's hooks and generates the functions
-    of every class.  A converter is documented to be independent of the ones created before it, so this changes nothing
+    of every class, and a converter obtained from get_converter() is customised with tolerant hooks by its owner.  A
+    converter is documented to be independent of the ones created before it, so this changes nothing
     where the properties hold; where state leaks between converters (a module-level cache of generated functions, a
     table filled on first use) the analysed converter now shows it."""
     if _FOREIGN:
@@ -241,6 +242,16 @@ def foreign_history():
                 c.get_structure_hook(cls)
                 c.get_unstructure_hook(cls)
         _FOREIGN[0] = c
+        # ... and another component customised the converter IT obtained from get_converter() (as language-server
+        # frameworks do): tolerant pass-through hooks for enumerations and primitives.  Its converter is its own.
+        import enum
+
+        mine = converters.get_converter()
+        mine.register_structure_hook_func(lambda t: isinstance(t, type) and issubclass(t, enum.Enum), lambda v, t: v)
+        for prim in (int, float, str, bool):
+            mine.register_structure_hook(prim, lambda v, t: v)
+        mine.register_unstructure_hook_func(lambda t: isinstance(t, type) and issubclass(t, enum.Enum), lambda v: "customised")
+        _FOREIGN.append(mine)
     except Exception as e:  # a package that cannot do this fails the checks that create converters anyway
         sys.stderr.write("foreign converter history not established: %r\n" % (e,))
 
